@@ -415,6 +415,10 @@ class World:
                     os.killpg(pid, signal.SIGKILL)
                 except (ProcessLookupError, PermissionError):
                     pass
+                try:
+                    os.kill(pid, signal.SIGKILL)      # the child may not have reached setsid() yet
+                except (ProcessLookupError, PermissionError):
+                    pass
         for pid in (self.send_pid, self.clean_pid):
             if pid:
                 try:
